@@ -603,9 +603,22 @@ class MessageManager(interfaces.TokenInterface, interfaces.MessageManager):
             )
             self._recent_nons[key] = (messageerror_monitor, handle)
 
-        self._store_response_for_duplicates(message)
+        try:
+            self._send_via_transport(message)
+        except Exception:
+            # Not a transport error (those are dispatched), but eg. a message
+            # that can not be serialized. Whoever handed the message in gets
+            # the exception; the exchange just opened for it must not stay
+            # around and block the remote for good.
+            key = (message.remote, message.mid)
+            if message.mtype is CON and key in (self._active_exchanges or {}):
+                _, next_retransmission = self._active_exchanges.pop(key)
+                next_retransmission.cancel()
+                self._continue_backlog(message.remote)
+            raise
 
-        self._send_via_transport(message)
+        # only what the transport accepted can be repeated for duplicates
+        self._store_response_for_duplicates(message)
 
     def _send_via_transport(self, message):
         """Put the message on the wire"""
